@@ -68,7 +68,7 @@ func job(sc *lockh.Scenario, cfg vsched.Config) sdrv.Job {
 					return "bad-return", &vsched.Violation{Sig: "wrong-error-returned", Detail: fmt.Sprintf("worker %d: %s", w, r) + ctxt}
 				}
 			}
-			if !strings.Contains(sc.String(), "h") && x.EndNow > time.Second {
+			if !strings.Contains(sc.String(), "h") && x.EndNow > time.Second && !sc.Faults {
 				// no program sleeps, so every hand-off must happen without the clock: if virtual time had to advance,
 				// a blocked caller was only released by a timer (lease expiry), i.e. its wake-up was lost
 				return "late-handoff", &vsched.Violation{Sig: "lost-wakeup (released only by lease expiry)", Detail: fmt.Sprintf("all workers finished, but only after the virtual clock advanced to +%v: a waiting caller was not woken by the Unlock / cancellation and had to wait for the record's expiration", x.EndNow) + ctxt}
@@ -103,11 +103,12 @@ func main() {
 	fine := vsched.Mask(vsched.KLock, vsched.KChan, vsched.KAtomic, vsched.KEnv, vsched.KSleep)
 	var jobs []sdrv.Job
 	honour := false
+	faults := false
 	add := func(topos []string, alpha []lockh.Prog, shutdown int, cfg vsched.Config) {
 		for _, tn := range topos {
 			topo := lockh.Topologies[tn]
 			for _, ps := range product(alpha, len(topo.LockerOf)) {
-				sc := &lockh.Scenario{Topo: topo, Progs: ps, Shutdown: shutdown, Lease: lease, Residue: true, HonourCtx: honour, ReplyPoint: true}
+				sc := &lockh.Scenario{Topo: topo, Progs: ps, Shutdown: shutdown, Lease: lease, Residue: true, HonourCtx: honour, ReplyPoint: !faults, Faults: faults}
 				c := cfg
 				nC := strings.Count(sc.String(), "C")
 				if !run.Thorough() && c.P > 1 && nC >= 2 {
@@ -129,15 +130,23 @@ func main() {
 		add(two, progs("L", "T", "C", "TT", "LL"), 0, vsched.Config{P: 1, Preempt: fine, MaxSteps: 5000})
 		add([]string{"d"}, progs("L", "T", "C"), -1, vsched.Config{P: 1, Preempt: fine, MaxSteps: 5000})
 		add([]string{"e"}, progs("L", "C"), -1, vsched.Config{P: 1, Preempt: fine, MaxSteps: 5000})
+		// one storage fault (request or reply lost) on any acquire/release-path call: whatever the attempt returns,
+		// every locker is usable again once all leases have lapsed
+		faults = true
+		add(two, progs("L", "T", "C", "LT"), -1, vsched.Config{P: 1, F: 1, Preempt: fine, MaxSteps: 5000})
+		faults = false
 		honour = true // the same storage, but refusing calls whose context has ended (as networked storages do)
 		add(two, progs("L", "T", "C", "X", "Y"), -1, vsched.Config{P: 1, Preempt: fine, MaxSteps: 5000})
 		honour = false
-		bounds["tiers"] = "3 distinct lockers (3 providers) {L,C}^3 with at most one C, P<=1; 2 workers {L,T,C,X}^2 P<=2; 9-program alphabet P<=1; Shutdown pseudo thread with {L,T,C,TT,LL}^2 P<=1; 3 workers {L,T,C}^3 P<=1"
+		bounds["tiers"] = "3 distinct lockers (3 providers) {L,C}^3 with at most one C, P<=1; 2 workers {L,T,C,X}^2 P<=2; 9-program alphabet P<=1; Shutdown pseudo thread with {L,T,C,TT,LL}^2 P<=1; 3 workers {L,T,C}^3 P<=1; one storage fault F<=1 with {L,T,C,LT}^2 P<=1"
 	} else {
 		add(two, progs("L", "T", "C", "X", "Y"), -1, vsched.Config{P: 3, Preempt: fine, MaxSteps: 5000})
 		add(two, progs("L", "T", "C", "LL", "TT", "CT", "CL", "XL", "Lh"), -1, vsched.Config{P: 2, Preempt: fine, MaxSteps: 5000})
 		add(two, progs("L", "T", "C", "TT", "LL", "CT"), 0, vsched.Config{P: 2, Preempt: fine, MaxSteps: 5000})
 		add([]string{"d", "e"}, progs("L", "T", "C"), -1, vsched.Config{P: 2, Preempt: fine, MaxSteps: 5000})
+		faults = true // same bounds as the quick tier
+		add(two, progs("L", "T", "C", "LT"), -1, vsched.Config{P: 1, F: 1, Preempt: fine, MaxSteps: 5000})
+		faults = false
 		add([]string{"d"}, progs("L", "T", "C"), 0, vsched.Config{P: 1, Preempt: fine, MaxSteps: 5000})
 		honour = true
 		add(two, progs("L", "T", "C", "X", "Y", "CT", "XL"), -1, vsched.Config{P: 2, Preempt: fine, MaxSteps: 5000})
@@ -154,6 +163,6 @@ func main() {
 	}
 	sdrv.Main(run, jobs, sdrv.Options{
 		Budget: budget, Bounds: bounds,
-		Rule: "every schedule within the preemption bound of every program tuple over {L=Lock, T=TryLock, C=LockWithCtx with a canceller pseudo thread that fires at any point (before the call, during the local token wait, during the storage wait, after success), X=LockWithCtx(cancelled ctx), two-attempt programs, Lh=hold across a renewal} plus a Shutdown pseudo thread; every successful attempt is followed by Unlock. Oracles: (1) every maximal execution ends with all workers finished (a deadlock with a blocked worker = lost wake-up) and, when no program sleeps, without the virtual clock having to advance (a waiter released only by the lease expiry = lost wake-up); (2) a cancelled LockWithCtx returns ctx.Err(), nothing else; (3) at the end the lock record is gone, the in-memory waiter table is empty and a fresh TryLock on every Locker succeeds (unless shut down); (4) an attempt invoked after Shutdown() returned never acquires",
+		Rule: "every schedule within the preemption bound of every program tuple over {L=Lock, T=TryLock, C=LockWithCtx with a canceller pseudo thread that fires at any point (before the call, during the local token wait, during the storage wait, after success), X=LockWithCtx(cancelled ctx), two-attempt programs, Lh=hold across a renewal} plus a Shutdown pseudo thread; every successful attempt is followed by Unlock. Oracles: (1) every maximal execution ends with all workers finished (a deadlock with a blocked worker = lost wake-up) and, when no program sleeps, without the virtual clock having to advance (a waiter released only by the lease expiry = lost wake-up); (2) a cancelled LockWithCtx returns ctx.Err(), nothing else; (3) at the end the lock record is gone, the in-memory waiter table is empty and a fresh TryLock on every Locker succeeds (unless shut down); (4) an attempt invoked after Shutdown() returned never acquires; (5) fault family (quick tier): with at most one storage fault (request or reply lost) on any acquire/release-path storage call no worker stays blocked and, once all leases have lapsed, a TryLock on every Locker succeeds",
 	})
 }
